@@ -407,13 +407,24 @@ def run(chk):
         r2.expect(nargs == 1, "hash_function called with the string only", "RendezvousHash.get_node:hash-extra-args", "extra arguments are passed to the hash", fn=gn, node=c)
     r2.expect(sorted(scored) == [0, 1], "each node in rotation is scored exactly once", "RendezvousHash.get_node:nodes-scored", "with two nodes in rotation the nodes scored are %s" % scored, fn=gn, node=gn.node)
     init = prog.method(rv, "__init__")
-    lam = [n for n in walk_no_nested(init.node) if isinstance(n, ast.Assign) and any(is_self_attr(t, "hash_function") for t in n.targets)]
-    ok = False
-    if len(lam) == 1 and isinstance(lam[0].value, ast.Lambda):
-        b = lam[0].value.body
-        a = lam[0].value.args.args
-        ok = isinstance(b, ast.Call) and isinstance(b.func, ast.Name) and b.func.id == "hash_function" and len(b.args) == 2 and isinstance(b.args[0], ast.Name) and len(a) == 1 and b.args[0].id == a[0].arg and isinstance(b.args[1], ast.Name) and b.args[1].id == "seed"
-    r2.expect(ok, "self.hash_function = lambda x: hash_function(x, seed)", "RendezvousHash.__init__:hash-wiring", "the instance hash is not hash_function(x, seed)", fn=init, node=init.node)
+    # what the instance hash does with its argument: the callable stored in self.hash_function (a lambda, or a nested
+    # single-return def) applied to x must be hash_function(x, seed) - both positional: a caller's own hash function
+    # need not call its second parameter `seed`
+    from .paths import callable_expr
+
+    lam = [n for n in ast.walk(init.node) if isinstance(n, ast.Assign) and any(is_self_attr(t, "hash_function") for t in n.targets)]
+    fnv = callable_expr(init.node, lam[0].value) if len(lam) == 1 else None
+    if fnv is None:
+        if len(lam) == 1 and isinstance(lam[0].value, ast.Name) and lam[0].value.id == "hash_function":
+            r2.fail("RendezvousHash.__init__:hash-wiring", "the instance hash is the bare hash_function: the seed does not reach it", fn=init, node=lam[0])
+        else:
+            r2.undecided("RendezvousHash.__init__:hash-wiring", "self.hash_function is assigned %s: not a lambda or a single-return function this analysis can apply" % ("`%s`" % node_src(lam[0].value) if len(lam) == 1 else "%d times" % len(lam)))
+    else:
+        b = fnv.body
+        a = fnv.args.posonlyargs + fnv.args.args
+        plain = len(a) == 1 and not fnv.args.vararg and not fnv.args.kwarg and not fnv.args.kwonlyargs
+        ok = plain and isinstance(b, ast.Call) and isinstance(b.func, ast.Name) and b.func.id == "hash_function" and len(b.args) == 2 and not b.keywords and isinstance(b.args[0], ast.Name) and b.args[0].id == a[0].arg and isinstance(b.args[1], ast.Name) and b.args[1].id == "seed"
+        r2.expect(ok, "self.hash_function = x -> hash_function(x, seed)", "RendezvousHash.__init__:hash-wiring", "the instance hash applied to x is `%s`, not hash_function(x, seed)" % node_src(b), fn=init, node=init.node)
     hp = init.param("hash_function")
     r2.expect(hp is not None and isinstance(hp.default, ast.Name) and hp.default.id == "murmur3_32", "default hash is murmur3_32", "RendezvousHash.__init__:default-hash", "the default hash function is %s, not murmur3_32" % (node_src(hp.default) if hp is not None and hp.default is not None else None), fn=init, node=init.node)
 
